@@ -391,6 +391,7 @@ def precOk (p : Nat) : Bool := p ≤ 65535
 
 /-- precision arguments `format_general` hands to `format!`, all of which must be `≤ u16::MAX` -/
 def generalPrecOk (precision bits : Nat) (alwaysShowsFract : Bool) : Bool :=
+  let precision := max precision 1          -- `let precision = precision.max(1);` (fix 668a737)
   if !PV.Dec.isFinite bits then true else
   if !precOk (precision - 1) then false else
   let (_, exponent) := PV.Dec.toExpL bits (precision - 1)
